@@ -8,7 +8,8 @@ N=${1:-8}
 SEEDS=${2:-1,2,3}
 PAT=${3:-.}
 rm -f /tmp/vpar_*.log
-ids=$(ls "$HERE/seeded" | grep -E "$PAT")
+SD=${SEEDED_DIR:-seeded}
+ids=$(ls "$HERE/$SD" | grep -E "$PAT")
 k=0
 while [ $k -lt "$N" ]; do
   (
@@ -17,9 +18,9 @@ while [ $k -lt "$N" ]; do
     rsync -a --exclude replays "$HERE/" "$C/"
     i=0
     for id in $ids; do
-      if [ $((i % N)) -eq $k ] && [ -f "$C/seeded/$id/meta.json" ]; then
+      if [ $((i % N)) -eq $k ] && [ -f "$C/$SD/$id/meta.json" ]; then
         "$C/tools/seeded.py" run "$id" --seeds "$SEEDS"
-        cp "$C/seeded/$id/result.json" "$HERE/seeded/$id/result.json"
+        cp "$C/$SD/$id/result.json" "$HERE/$SD/$id/result.json"
       fi
       i=$((i + 1))
     done
